@@ -24,7 +24,7 @@ namespace CV.Bits
 /-- the model-only fault "fuel exhausted" (proved unreachable) -/
 def fuelFault : Fault := .ub "model:fuel"
 
-/-- widths admitted for `Word` -/
+/-- widths allowed for `Word` -/
 def ValidW (W : Nat) : Prop := 2 ≤ W
 
 instance (W : Nat) : Decidable (ValidW W) := by unfold ValidW; exact inferInstance
@@ -346,18 +346,5 @@ def QDecoder.bits (W : Nat) (d : QDecoder) : List Bool :=
 
 def QDecoder.Inv (W : Nat) (d : QDecoder) : Prop :=
   d.mask = 0 ∨ ∃ j, j < W ∧ d.mask = 2^j
-
-/-- Spec of the export formats: pack bits into `W`-bit words, first bit = least significant
-    bit of the first word, last word zero padded.  Result in Rust `Vec` order. -/
-def packWord : List Bool → Nat
-  | [] => 0
-  | b :: r => (if b then 1 else 0) + 2 * packWord r
-
-def pack (W : Nat) : Nat → List Bool → List Nat
-  | 0, _ => []
-  | f + 1, l => if l.isEmpty then [] else packWord (l.take W) :: pack W f (l.drop W)
-
-/-- `pack` with enough fuel -/
-def packAll (W : Nat) (l : List Bool) : List Nat := pack W (l.length + 1) l
 
 end CV.Bits
